@@ -325,6 +325,51 @@ def isList : Obj → Bool
   | .val (.list _) => true
   | _ => false
 
+/-- `Display for CommandType` (strum: the variant name) -/
+def cmdVariantName : Cmd → String
+  | .evalStart => "EvalStart" | .evalOutput => "EvalOutput" | .evalEnd => "EvalEnd" | .duplicate => "Duplicate"
+  | .popEvaluatedValue => "PopEvaluatedValue" | .popFunction => "PopFunction" | .popTunnel => "PopTunnel"
+  | .beginString => "BeginString" | .endString => "EndString" | .noOp => "NoOp" | .choiceCount => "ChoiceCount"
+  | .turns => "Turns" | .turnsSince => "TurnsSince" | .readCount => "ReadCount" | .random => "Random"
+  | .seedRandom => "SeedRandom" | .visitIndex => "VisitIndex" | .sequenceShuffleIndex => "SequenceShuffleIndex"
+  | .startThread => "StartThread" | .done => "Done" | .«end» => "End" | .listFromInt => "ListFromInt"
+  | .listRange => "ListRange" | .listRandom => "ListRandom" | .beginTag => "BeginTag" | .endTag => "EndTag"
+
+/-- `Debug for Op` (the variant name) -/
+def opVariantName : Op → String
+  | .add => "Add" | .subtract => "Subtract" | .divide => "Divide" | .multiply => "Multiply" | .mod => "Mod"
+  | .negate => "Negate" | .equal => "Equal" | .greater => "Greater" | .less => "Less"
+  | .greaterEq => "GreaterThanOrEquals" | .lessEq => "LessThanOrEquals" | .notEquals => "NotEquals" | .not => "Not"
+  | .and => "And" | .or => "Or" | .min => "Min" | .max => "Max" | .pow => "Pow" | .floor => "Floor"
+  | .ceiling => "Ceiling" | .int => "Int" | .float => "Float" | .has => "Has" | .hasnt => "Hasnt"
+  | .intersect => "Intersect" | .listMin => "ListMin" | .listMax => "ListMax" | .all => "All" | .count => "Count"
+  | .valueOfList => "ValueOfList" | .invert => "Invert"
+
+/-- `Display` of a runtime object (`format!("{}", obj)` on an `Rc<dyn RTObject>`). -/
+def describe : Obj → String
+  | .val v => v.display
+  | .glue => "Glue"
+  | .void => "Void"
+  | .tag t => "# " ++ t
+  | .cmd c => cmdVariantName c
+  | .native op => "Native '" ++ opVariantName op ++ "'"
+  | .varAss n _ _ => "VarAssign to " ++ n
+  | .varRef n count =>
+    if !n.isEmpty then "var(" ++ n ++ ")"
+    else (match count with
+      | some p => "read_count(" ++ String.ofList p.toText ++ ")"
+      | none => "read_count(null)")
+  | .choicePoint _ p => "Choice: -> " ++ String.ofList p.toText
+  | .container name _ _ _ => "Container (" ++ name.getD "<no name>" ++ ")"
+  | .divert d =>
+    match d.varName, d.target with
+    | some vn, _ => "Divert(variable: " ++ vn ++ ")"
+    | none, none => "Divert(null)"
+    | none, some t =>
+      "Divert" ++ (if d.conditional then "?" else "")
+        ++ (if d.pushes then (if d.pushType == .function then " function" else " tunnel") else "")
+        ++ " -> " ++ String.ofList t.toText ++ " (" ++ String.ofList t.toText ++ ")"
+
 /-- Destination type of `coerce_values_to_single_type`. -/
 def destType (params : List Obj) : Nat :=
   params.foldl (fun d o => match o with
@@ -342,7 +387,7 @@ def coerceAll (dest : Nat) : List Obj → Out (List Val)
       | .panic s => .panic s
     | .err k m => .err k m
     | .panic s => .panic s
-  | _ :: _ => .invalid "RTObject of type Value expected"
+  | o :: _ => .invalid ("RTObject of type Value expected: " ++ describe o)
 
 /-- `call_binary_list_operation` -/
 def binaryList (defs : ListDefs) (op : Op) (p0 p1 : Obj) : Out Val :=
@@ -368,7 +413,9 @@ def binaryList (defs : ListDefs) (op : Op) (p0 p1 : Obj) : Out Val :=
       | .panic s => .panic s
     else if isList p0 && isList p1 then binary op v1 v2
     else .invalid ("Can not call use '" ++ op.name ++ "' operation on " ++ v1.display ++ " and " ++ v2.display)
-  | _, _, _ => .panic "native_function_call.rs:binary_list_downcast"
+  -- the other operand of a list may be any object of the evaluation stack: first operand first
+  | _, .val _, o => .invalid ("RTObject of type Value expected: " ++ describe o)
+  | _, o, _ => .invalid ("RTObject of type Value expected: " ++ describe o)
 
 /-- `NativeFunctionCall::call` -/
 def call (defs : ListDefs) (op : Op) (params : List Obj) : Out Obj :=
